@@ -4,8 +4,9 @@ import ast
 from rules import observers, stream
 from sa.deps import Facts, names_in, pseudo
 from sa.loader import AnalysisError, FuncInfo, own_nodes
-from sa.model import is_drain_call, row_loops, rowloop_signature, u, where
+from sa.model import is_drain_call, norm_compare, row_loops, rowloop_signature, u, where
 from sa.paths import BREAK, FALL, RAISE, Enumerator, path_nodes
+from sa.normalize import resolve_here
 from sa.pattern import find_expr, find_stmt, has_expr, has_stmt, match_expr, match_stmt
 
 LOAD = 'dataflows.processors.load:load'
@@ -60,37 +61,56 @@ def row_wrappers(ctx, ld):
     run.rule('R12', 'ROW-LOOP-SHAPE(load): limiter yields the incoming rows and stops after exactly limit_rows of them; stripper yields '
                     'each row once and stores only stripped strings under the same key; stringer yields a fresh row whose every value '
                     'is a str; missing_values_extractor yields each row once and stores only the target field')
-    lim = ld.methods['limiter']
-    loop, var, _ = observers.single_row_loop(ctx, lim)
-    sigs = rowloop_signature(lim, loop, var)
-    facts = Facts(lim, include_nested=False)
-    ok = all([k for k, _ in s.yields] == ['identity'] and not s.stores for s in sigs) and len(sigs) == 2
-    cnt = None
-    for s in sigs:
-        g = [(t, pol) for t, pol in s.guards if isinstance(t, ast.Compare)]
-        if len(g) != 1:
-            ok = False
-            continue
-        t, pol = g[0]
-        cnt = pseudo(t.left)
-        ok = ok and isinstance(t.ops[0], (ast.GtE, ast.Eq)) and pseudo(t.comparators[0]) == 'self.limit_rows'
-        ok = ok and ((s.term == BREAK) == pol)
-        # yield < increment < test on the path
-        seq = []
-        for n in path_nodes(s.path):
-            if isinstance(n, ast.Yield):
-                seq.append('Y')
-            elif isinstance(n, ast.AugAssign) and pseudo(n.target) == cnt and isinstance(n.op, ast.Add) and \
-                    isinstance(n.value, ast.Constant) and n.value.value == 1:
-                seq.append('I')
-            elif n is t:
-                seq.append('T')
-        ok = ok and seq == ['Y', 'I', 'T']
-    init = [n.value for n in own_nodes(lim.node) if isinstance(n, ast.Assign) and pseudo(n.targets[0]) == cnt
-            and isinstance(n.value, ast.Constant)]
-    ok = ok and len(init) == 1 and init[0].value == 0
-    run.check(ok, 'R12', lim.where, lim.qualname, 'count = 0; for row: yield row; count += 1; if count >= limit: break',
-              'the limiter does not deliver exactly the first limit_rows rows')
+    lim = ctx.N(ld.methods['limiter'])
+    ok = False
+    how = ''
+    # (iii) islice form
+    if has_expr('(yield from itertools.islice(_it, self.limit_rows))', lim.node):
+        ok, how = True, 'islice'
+    else:
+        rls = row_loops(lim)
+        loops = [n for n in own_nodes(lim.node) if isinstance(n, ast.For)]
+        if len(loops) == 1:
+            loop = loops[0]
+            enum = isinstance(loop.iter, ast.Call) and u(loop.iter.func) == 'enumerate' and isinstance(loop.target, ast.Tuple)
+            if enum:
+                start = {k.arg: k.value for k in loop.iter.keywords}.get('start')
+                start = start.value if isinstance(start, ast.Constant) else (0 if start is None else None)
+                cnt, var = [t.id for t in loop.target.elts]
+            else:
+                var = loop.target.id if isinstance(loop.target, ast.Name) else None
+                cnt, start = None, None
+            if var:
+                sigs = rowloop_signature(lim, loop, var)
+                ok = all([k for k, _ in s_.yields] == ['identity'] and not s_.stores for s_ in sigs) and len(sigs) == 2
+                for s_ in sigs:
+                    g = [(t, pol) for t, pol in s_.guards if isinstance(t, ast.Compare)]
+                    if len(g) != 1:
+                        ok = False
+                        continue
+                    t, pol = g[0]
+                    c = pseudo(t.left)
+                    ok = ok and isinstance(t.ops[0], (ast.GtE, ast.Eq)) and pseudo(t.comparators[0]) == 'self.limit_rows'
+                    ok = ok and ((s_.term == BREAK) == pol)
+                    seq = []
+                    for n in path_nodes(s_.path):
+                        if isinstance(n, ast.Yield):
+                            seq.append('Y')
+                        elif isinstance(n, ast.AugAssign) and pseudo(n.target) == c and isinstance(n.op, ast.Add) and \
+                                isinstance(n.value, ast.Constant) and n.value.value == 1:
+                            seq.append('I')
+                        elif n is t:
+                            seq.append('T')
+                    if enum:
+                        # the counter is the 1-based position of the row just yielded
+                        ok = ok and c == cnt and start == 1 and seq == ['Y', 'T']
+                    else:
+                        init = [n.value for n in own_nodes(lim.node) if isinstance(n, ast.Assign) and pseudo(n.targets[0]) == c
+                                and isinstance(n.value, ast.Constant)]
+                        ok = ok and seq == ['Y', 'I', 'T'] and len(init) == 1 and init[0].value == 0
+                how = 'enumerate' if enum else 'counter'
+    run.check(ok, 'R12', lim.where, lim.qualname, 'yield row k, stop as soon as k rows were yielded and k >= limit_rows',
+              'the limiter does not deliver exactly the first limit_rows rows', detail=how)
     # the limiter is only installed for a truthy limit (limit 0/None = no limit), checked in WRAP
     stp = ld.methods['stripper']
     loop, var, _ = observers.single_row_loop(ctx, stp)
@@ -127,23 +147,15 @@ def row_wrappers(ctx, ld):
                     ok, why = False, 'the stripped value is not the string cell stored back under its own key'
     run.check(ok, 'R12', stp.where, stp.qualname, 'for k, v in r.items(): if str: r[k] = v.strip(); yield r',
               'stripping does not treat every string cell of every row: ' + why)
-    sg = ld.methods['stringer']
+    sg = ctx.N(ld.methods['stringer'])
     loop, var, _ = observers.single_row_loop(ctx, sg)
     ys = [y for y in ast.walk(loop) if isinstance(y, ast.Yield)]
-    ok = len(ys) == 1 and isinstance(ys[0].value, ast.Call) and u(ys[0].value.func) == 'dict' and \
-        isinstance(ys[0].value.args[0], ast.GeneratorExp)
-    if ok:
-        g = ys[0].value.args[0]
-        k, v = [t.id for t in g.generators[0].target.elts]
-        e = g.elt
-        ok = u(g.generators[0].iter) == '%s.items()' % var and not g.generators[0].ifs and isinstance(e, ast.IfExp)
-        if ok:
-            is_str_test = u(e.test) in ('not isinstance(%s, str)' % v, 'isinstance(%s, str)' % v)
-            neg = u(e.test).startswith('not ')
-            conv, keep = (e.body, e.orelse) if neg else (e.orelse, e.body)
-            ok = is_str_test and u(conv) == '(%s, str(%s))' % (k, v) and u(keep) == '(%s, %s)' % (k, v)
-    run.check(ok, 'R12', sg.where, sg.qualname, 'dict((k, str(v)) if not isinstance(v, str) else (k, v) ...)',
-              'the string strategy can emit a value that is not a str')
+    e = resolve_here(ys[0].value) if len(ys) == 1 and ys[0].value is not None else None
+    ok = e is not None and any(match_expr(p_, e, {'_r': var}) is not None for p_ in (
+        '{_k: _v if isinstance(_v, str) else str(_v) for (_k, _v) in _r.items()}',
+        '{_k: str(_v) for (_k, _v) in _r.items()}'))
+    run.check(ok, 'R12', sg.where, sg.qualname, '{k: v if isinstance(v, str) else str(v) for k, v in row.items()}',
+              'the string strategy can emit a value that is not a str (found %s)' % (u(e) if e is not None else 'no single yield'))
     mv = ld.methods['missing_values_extractor']
     loop, var, _ = observers.single_row_loop(ctx, mv)
     sigs = rowloop_signature(mv, loop, var)
@@ -159,42 +171,66 @@ def headers_and_tables(ctx, ld):
     run.rule('R23', 'MODE-SIGNATURE(load): duplicate headers without deduplicate_headers raise; with it they are renamed; the guesser and '
                     'caster tables have exactly the three documented strategies; on_error reaches the schema caster')
     sp = ld.methods['safe_process_datapackage']
-    en = Enumerator(where=sp.qualname, relevant=lambda n: isinstance(n, ast.Raise) or
-                    (isinstance(n, ast.Attribute) and n.attr in ('deduplicate_headers',)) or
-                    (isinstance(n, ast.Name) and n.id == 'duplication_test') or
-                    (isinstance(n, ast.Call) and isinstance(n.func, ast.Attribute) and n.func.attr == 'rename_duplicate_headers'))
-    seen = {}
-    for p in en.paths(sp.node.body):
-        g = {u(t): pol for t, pol in p.guards()}
-        dup = g.get('duplication_test')
-        if dup is None:
-            continue
-        ded = g.get('not self.deduplicate_headers')
-        if ded is not None:
-            ded = not ded
-        elif 'self.deduplicate_headers' in g:
-            ded = g['self.deduplicate_headers']
-        renames = any(isinstance(n, ast.Call) and isinstance(n.func, ast.Attribute) and n.func.attr == 'rename_duplicate_headers'
-                      for n in path_nodes(p))
-        key = (dup, ded)
-        if dup and ded is False:
-            seen[key] = p.term == RAISE and not renames
-        elif dup and ded:
-            seen[key] = renames and p.term != RAISE
-        elif not dup:
-            seen[(False, None)] = seen.get((False, None), True) and not renames
-    run.check(seen.get((True, False)) is True, 'R23', sp.where, sp.qualname, 'duplicates & not deduplicate_headers -> raise',
-              'duplicate headers are accepted silently although de-duplication was not requested')
-    run.check(seen.get((True, True)) is True, 'R23', sp.where, sp.qualname, 'duplicates & deduplicate_headers -> renamed',
-              'duplicate headers are not renamed although requested')
-    run.check(seen.get((False, None)) is True, 'R23', sp.where, sp.qualname, 'no duplicates -> headers untouched',
-              'unique headers are renamed')
-    # duplication test compares len(headers) with len(set(headers)) (case-insensitively when asked)
-    ok = has_stmt('duplication_test = len(_s.headers) != len(set(_s.headers))', sp.node) and \
-        has_stmt('_lh = [_h.lower() for _h in _s.headers]', sp.node) and \
-        has_stmt('duplication_test = len(_lh) != len(set(_lh))', sp.node)
+    renames = [c for c in ast.walk(sp.node) if isinstance(c, ast.Call) and isinstance(c.func, ast.Attribute)
+               and c.func.attr == 'rename_duplicate_headers']
+    if len(renames) != 1:
+        raise AnalysisError('load: the call that renames duplicate headers was not found')
+    # D = the innermost `if` that contains both the rename and a raise: its test is "the headers contain duplicates"
+    D = None
+    p_ = renames[0]
+    while getattr(p_, '_parent', None) is not None and p_ is not sp.node:
+        p_ = p_._parent
+        if isinstance(p_, ast.If) and any(isinstance(x, ast.Raise) for st_ in p_.body for x in ast.walk(st_)) \
+                and any(renames[0] is x for st_ in p_.body for x in ast.walk(st_)):
+            D = p_
+            break
+    if D is None:
+        run.fail('R23', sp.where, sp.qualname, 'if <duplicate headers>: raise unless deduplicate_headers, else rename',
+                 'renaming / rejecting duplicate headers is not conditional on duplicates being present')
+    else:
+        seen = {}
+        for path in Enumerator(where=sp.qualname).paths(D.body):
+            flag = [pol for t, pol in [norm_compare(t, pol) for t, pol in path.guards()] if pseudo(t) == 'self.deduplicate_headers']
+            did_rename = any(n is renames[0] for n in path_nodes(path))
+            if not flag:
+                continue
+            if flag[0]:
+                seen[True] = seen.get(True, True) and did_rename and path.term != RAISE
+            else:
+                seen[False] = seen.get(False, True) and path.term == RAISE and not did_rename
+        run.check(seen.get(False) is True, 'R23', where(repo, D), sp.qualname, 'duplicates & not deduplicate_headers -> raise',
+                  'duplicate headers are accepted silently although de-duplication was not requested')
+        run.check(seen.get(True) is True, 'R23', where(repo, D), sp.qualname, 'duplicates & deduplicate_headers -> renamed',
+                  'duplicate headers are not renamed although requested')
+        run.check(not D.orelse or not any(renames[0] is x for st_ in D.orelse for x in ast.walk(st_)), 'R23', where(repo, D), sp.qualname,
+                  'no duplicates -> headers untouched', 'unique headers are renamed')
+        # the renamed headers replace the stream's headers
+        asg = renames[0]._parent
+        run.check(isinstance(asg, ast.Assign) and u(asg.targets[0]).endswith('.headers'), 'R23', where(repo, D), sp.qualname,
+                  'stream.headers = renamed headers', 'the de-duplicated names are not used as the field names')
+    # the decision "there are duplicate headers" is a uniqueness test of the (optionally lower-cased) stream headers, wherever
+    # it is computed (inline or in a helper of the class / module)
+    scope = [sp.node] + [f.node for f in repo.functions.values() if f.module is sp.module and f is not sp and
+                         any(isinstance(c, ast.Call) and any(t is f for t in ctx.res.resolve_call(c))
+                             for c in ast.walk(sp.node))]
+    uniq = [b for sc in scope for n, b in find_expr('len(_h) != len(set(_h))', sc)]
+    lower = any(has_expr('[_x.lower() for _x in __H]', sc) for sc in scope)
+    ok = len(uniq) >= 1 and lower and any('headers' in u(sc) for sc in scope)
     run.check(ok, 'R23', sp.where, sp.qualname, 'duplicates = len(h) != len(set(h)) (lower-cased when case-insensitive)',
               'the duplicate-header test is not a uniqueness test of the header names')
+    run.rule('OPT', 'STREAM-OPTION-DEFAULTS: the defaults load hands to the tabular reader keep every data line: headers from row 1, only '
+                    'the "auto" skip preset (comment / leading blank lines), blank *headers* ignored; no preset that drops data rows')
+    dflt = {}
+    for c in ast.walk(sp.node):
+        if isinstance(c, ast.Call) and u(c.func) == 'self.options.setdefault' and len(c.args) == 2 and isinstance(c.args[0], ast.Constant):
+            try:
+                dflt[c.args[0].value] = ast.literal_eval(c.args[1])
+            except Exception:
+                dflt[c.args[0].value] = u(c.args[1])
+    want = {'ignore_blank_headers': True, 'skip_rows': [{'type': 'preset', 'value': 'auto'}], 'headers': 1, 'sample_size': 1000}
+    for k_, v_ in want.items():
+        run.check(dflt.get(k_) == v_, 'OPT', sp.where, sp.qualname, 'default %s = %r' % (k_, v_),
+                  'the default reader option %s is %r instead of %r: data lines can be dropped or mis-read as headers' % (k_, dflt.get(k_), v_))
     init = ld.methods['__init__']
     for attr, keys in (('self.guesser', ['self.INFER_FULL', 'self.INFER_PYTHON_TYPES', 'self.INFER_STRINGS']),
                        ('self.caster', ['self.CAST_DO_NOTHING', 'self.CAST_WITH_SCHEMA', 'self.CAST_TO_STRINGS'])):
